@@ -28,6 +28,8 @@ from ..engines.linform import swap_sigma, rename, canon
 
 def run(model, rep, tier):
     rep.explanation = __doc__.strip()
+    from ._common import caches_for
+    caches_for(model, rep, 'C01')
     rep.not_decided = 'numerical equality of Lss/Lsv/L1vv with the exact one-solute/one-vacancy Markov chain; ' \
                       'correctness of the star / vector-star expansions themselves'
     rep.rule('exchange-symmetric', 'fragment is invariant under swapping the two endpoints of a jump')
